@@ -41,4 +41,5 @@ MUTANTS = [
 """),
     dict(id="X28-too-large-threshold-not-rechecked-after-insert", file=ST + "key_of_set_map/cache.rs",
          old="                if new_set.len() > 1024 {", new="                if new_set.len() > usize::MAX / 2 {"),
+    # ------------------------------------------------------------------ query path / sessions
 ]
